@@ -288,9 +288,9 @@ def gen_free_random(rng):
         elif r < 0.6: ops.append('adv %d' % rng.choice([1, 1, 2, 3]))
         elif r < 0.9: ops.append('do ' + ' '.join(rand_call(rng, dummies) for _ in range(rng.choice([1, 1, 2]))))
         else: ops.append('defer ' + rand_call(rng, dummies))
-    # (no `settle` here: random runs with several scripts and control calls still end in stuck composites now and then —
-    #  recorded as an open finding in Props.lean; the directed set above is checked with `settle`)
     ops += ['pass', 'adv 6', 'pass', 'pass', 'pass']
+    if not any(h in tree for h in ('loop', 'lif', 'rep')):      # a loop that runs for ever never settles
+        ops.append('settle')
     return ops
 
 
